@@ -116,6 +116,10 @@ func (p *StreamProp) NumUnits(tier string, seed int64) int {
 func (p *StreamProp) states(ws *core.Workspace, tier string, seed int64, srcIdx int, rc Recipe) []State {
 	var out []State
 	pstep, tstep := p.prefixStep[tier], p.tokStep[tier]
+	if rc.Kind == "fixture" && rc.Name == "tf-unicode" && tier == "quick" {
+		// the small multi-byte fixture is edited at (nearly) every byte and token also in the quick tier
+		pstep, tstep = 2, 1
+	}
 	if strings.Contains(rc.Opt, "wide") && p.id != "C06" {
 		// bodies of 90..130 attributes answer every completion with a full candidate list:
 		// they are there for the candidate limit (C06) and sampled more coarsely elsewhere
